@@ -52,6 +52,8 @@ def main():
                     # functions without locals are recorded too (empty name lists): a local that appears later is known to be new
                     rec[prefix + st.name] = alpha.shape_record(st) if alpha.local_names(st) else []
         visit(tree.body, "")
+        # names bound at module level: a module constant that appears later is known to be new
+        rec["<module>"] = [[0, sorted(alpha.module_level_names(tree))]]
         if rec:
             refs[rel] = rec
             n += len(rec)
